@@ -78,6 +78,27 @@ def build_module(shared, imported=False):
             m.add_func(ps, [I64], [(1, I64)], body, export=ex)
             ctx.append((t, w, op, n, ex))
     m.ctx_names = ctx
+    # "split" alignment: the static offset alone is NOT a multiple of the access width and neither is the address operand, but their sum
+    # is naturally aligned (what the instruction requires is the alignment of the effective address)
+    split = []
+    for t, w in FAMILIES:
+        if w == 8:
+            continue
+        al = {16: 1, 32: 2, 64: 3}[w]
+        so = w // 16
+        for op in ('load', 'store', 'add', 'xchg', 'cmpxchg', 'sub', 'and', 'or', 'xor'):
+            n = opname(t, w, op)
+            ex = 'so_' + n.replace('.', '_')
+            if op == 'load':
+                m.add_func([I32], [t], [], [('local.get', 0), (n, al, so)], export=ex)
+            elif op == 'store':
+                m.add_func([I32, t], [], [], [('local.get', 0), ('local.get', 1), (n, al, so)], export=ex)
+            elif op == 'cmpxchg':
+                m.add_func([I32, t, t], [t], [], [('local.get', 0), ('local.get', 1), ('local.get', 2), (n, al, so)], export=ex)
+            else:
+                m.add_func([I32, t], [t], [], [('local.get', 0), ('local.get', 1), (n, al, so)], export=ex)
+            split.append((t, w, op, n, ex, so))
+    m.split_names = split
     m.add_func([], [], [], [('atomic.fence',)], export='fence')
     m.add_func([I32, I32], [I32], [], [('local.get', 0), ('local.get', 1), ('i32.atomic.rmw.add', 2, 16)], export='add_off16')
     m.add_func([I32], [I32], [], [('local.get', 0), ('memory.grow',)], export='grow')
@@ -173,6 +194,18 @@ def sequential(chk, w2c2, quick):
         else:
             lines.append('x 0 %d %d %d' % (fk, aset, vs))
         lines.append('w 0 0 %d 512' % 0x1000)
+    for t, w, op, n, ex, so in m.split_names:
+        by = w // 8
+        aset = defset([by - so, 128 + by - so, 0x2000 + 3 * by - so, 65536 - by - so])
+        vs = v32 if t == 'i32' else v64
+        fk = plan.fk(ex)
+        if op == 'load':
+            lines.append('x 0 %d %d' % (fk, aset))
+        elif op == 'cmpxchg':
+            lines.append('x 0 %d %d %d %d' % (fk, aset, vs, vs))
+        else:
+            lines.append('x 0 %d %d %d' % (fk, aset, vs))
+        lines.append('w 0 0 0 256')
     lines.append('c 0 %d 0x10 0x5' % plan.fk('add_off16'))
     lines.append('c 0 %d' % plan.fk('fence'))
     lines.append('m 0 0')
@@ -213,6 +246,7 @@ def sequential(chk, w2c2, quick):
             break
     chk.observe('sequential_flavours', len(names), 'set')
     chk.observe('sequential_flavours_in_context', len(m.ctx_names), 'set')
+    chk.observe('sequential_flavours_split_alignment', len(m.split_names), 'set')
     chk.sample({'part': 'a', 'lines': ref[1:4]})
 
 
